@@ -41,7 +41,8 @@ def strat():
     second = st.none() | st.fixed_dictionaries({
         "g": st.lists(pos, min_size=4, max_size=4), "flat": st.booleans(),
         "dreg": st.fixed_dictionaries({"k0": st.sampled_from(P.DYADIC), "k1": st.sampled_from(P.DYADIC)})})
-    return st.tuples(P.program_strategy(cfg()), second).map(lambda t: dict(t[0], second=t[1]))
+    # "peek": the unfinished circuit's duration and times are read before every add (a user looking while building)
+    return st.tuples(P.program_strategy(cfg()), second, st.booleans()).map(lambda t: dict(t[0], second=t[1], peek=t[2]))
 
 
 def off_leaf_circuits(root: M.MCirc):
@@ -79,13 +80,19 @@ def body(case, ctx):
     ctx.case(case, nontrivial=bool(off), classes=[
         f"off_leaf={bool(off)}", f"nesting={st['nesting']}", f"global={st['global']}",
         f"empty_sub={any(P.is_sub(it) and not it['sub']['items'] for _, it in P.iter_items(program['top']))}",
-        f"rel_types={''.join(st['rel_types'])}", f"reconfigured={bool(program.get('second'))}",
+        f"rel_types={''.join(st['rel_types'])}", f"reconfigured={bool(program.get('second'))}", f"peek={bool(program.get('peek'))}",
         f"flattened={bool(program.get('second') and program['second']['flat'])}"])
     facts = {"off_leaf_paths": [list(p) for p in off]}
     with P.global_override(program.get("g")):
         b = None
+
+        def peek(decl, p, it):
+            decl.duration
+            for o in decl.operations:
+                o.start_time
+
         with ctx.lib("build + list"):
-            b = P.build(program)
+            b = P.build(program, peek=peek if program.get("peek") else None)
             ops = b.circuit.operations
         if b is None:
             return
